@@ -77,7 +77,7 @@ class LazyM:
 class OnceM:
     def __init__(s, name='once'): s.done = False; s.running = None; s.name = name; s.value = None
 class IterM:
-    def __init__(s, items, pos=0): s.items = items; s.pos = pos; s.adapters = []; s.count = 0; s.guard = None
+    def __init__(s, items, pos=0): s.items = items; s.pos = pos; s.adapters = []; s.count = 0; s.guard = None; s.state = {}; s.peeked = None; s.repeat = None; s.genfn = None       # genfn: `iter::from_fn` closure producing further items on demand
 class Closure:
     def __init__(s, fname, upvars): s.fname = fname; s.fields = list(upvars)
     def __repr__(s): return f"Closure({s.fname})"
@@ -274,6 +274,9 @@ def str_eq(a, b):
         return _str_eq_slow(a, b)
     return v_eq(ta, tb)
 def _str_eq_slow(a, b):
+    from .builtins_ext import render_concrete
+    ra, rb = render_concrete(a), render_concrete(b)
+    if ra is not None and rb is not None: return ra == rb          # both texts are fully concrete: compare them
     # structurally different terms (literal vs rendered, different arity...): the wrapper-level VCs never
     # compare such keys inside one cache (one key shape per subject); across shapes: different unless proven
     # otherwise by C02.  Literal-vs-opaque-id: an opaque id never equals a literal.
@@ -718,7 +721,20 @@ class Interp:
         if re.search(r'<impl (u64|usize)>::MAX$', c) or c in ('u64::MAX', 'usize::MAX', 'core::num::<impl u64>::MAX', 'core::num::<impl usize>::MAX'): return 2 ** 64 - 1
         if re.search(r'<impl u32>::MAX$', c): return 2 ** 32 - 1
         if re.search(r'<impl f64>::MAX$', c) or c == 'f64::MAX': return z3.RealVal(2) ** 1023
-        if re.search(r'<impl f64>::(INFINITY)$', c): return z3.RealVal(2) ** 1100
+        m = re.search(r'(?:<impl (\w+)>|\b(u8|u16|u32|u64|usize|u128|i8|i16|i32|i64|isize|i128|f64|f32))::(MIN|MAX|BITS|EPSILON|INFINITY|NEG_INFINITY|NAN|MIN_POSITIVE)$', c)
+        if m:
+            t_ = m.group(1) or m.group(2); k_ = m.group(3)
+            if t_ in INT_RANGE and k_ in ('MIN', 'MAX'): return INT_RANGE[t_][0 if k_ == 'MIN' else 1]
+            if t_ in INT_RANGE and k_ == 'BITS': return {'u8': 8, 'i8': 8, 'u16': 16, 'i16': 16, 'u32': 32, 'i32': 32, 'u128': 128, 'i128': 128}.get(t_, 64)
+            if t_ in ('f64', 'f32'):
+                big = z3.RealVal(2) ** (1023 if t_ == 'f64' else 127)
+                if k_ == 'MAX': return big
+                if k_ == 'MIN': return -big
+                if k_ == 'INFINITY': return PINF
+                if k_ == 'NEG_INFINITY': return NINF
+                if k_ == 'NAN': return NAN
+                if k_ == 'EPSILON': return z3.RealVal(2) ** (-52 if t_ == 'f64' else -23)
+                if k_ == 'MIN_POSITIVE': return z3.RealVal(2) ** (-1022 if t_ == 'f64' else -126)
         if c.endswith('std::time::UNIX_EPOCH') or c.endswith('time::UNIX_EPOCH'): return Opaque('unix_epoch')
         m = re.match(r'^\{(alloc\d+): (.*)\}$', c)
         if m:
@@ -847,7 +863,20 @@ class Interp:
                 inr, _ = ctx.prove(z3.And(a >= lo, a <= hi))
                 if inr: return a
                 return ((a - lo) % (hi - lo + 1)) + lo
-            if ck == 'FloatToInt': raise Unsupported('float to int cast')
+            if ck == 'FloatToInt':
+                # `as`: truncation toward zero, saturating at the bounds of the target type, NaN -> 0
+                lo, hi = INT_RANGE.get(ty.strip(), (0, 2 ** 64 - 1))
+                if isinstance(a, FSpec): return 0 if a.kind == 'nan' else (hi if a.kind == 'inf' else lo)
+                a = simp(a) if is_z3(a) else a
+                if isinstance(a, float): a = z3.RealVal(a)
+                if is_z3(a) and z3.is_rational_value(a):
+                    n_, d_ = a.numerator_as_long(), a.denominator_as_long(); q_ = abs(n_) // d_ * (1 if n_ >= 0 else -1)
+                    return max(lo, min(hi, q_))
+                if is_conc(a): return max(lo, min(hi, int(a)))
+                q = ctx.fresh_int('ftoi')
+                ar = to_real(a)
+                ctx.add(z3.If(ar >= 0, z3.And(z3.ToReal(q) <= ar, ar < z3.ToReal(q) + 1), z3.And(z3.ToReal(q) >= ar, ar > z3.ToReal(q) - 1)))
+                return z3.If(q > hi, hi, z3.If(q < lo, lo, q))
             if ck == 'PointerExposeProvenance' and isinstance(a, Ref):
                 # address of an object as an integer: one distinct, stable, non-null number per (cell, projection) of this run
                 key = (id(a.cell), a.path)
@@ -1022,6 +1051,11 @@ class Interp:
     # ---------- calls
     def call(s, ctx, func, args, caller, ln=None, frame=None):
         from . import builtins as B
+        if re.match(r'^(move|copy) \(?\*?_\d+', func) and frame is not None:
+            # call through a function pointer / closure held in a local
+            from .mirparse import parse_operand
+            c = s.operand(ctx, frame, caller, parse_operand(func), ln)
+            r = yield from s.call_callable(ctx, c, list(args)); return r
         g = strip_generics(func)
         tc = norm_trait_call(g)
         # 1. environment of the subjects (driver-supplied models)
